@@ -899,6 +899,19 @@ func rtEngineRest(c *Ctx) {
 		rtExec(c, "rt zip ca direct "+filesetTok(zsp))
 		rtExec(c, "rt tar ca direct "+filesetTok(zsp))
 	}
+	// link targets are bytes, not paths: nothing about them is "cleaned" on the way (doubled and trailing slashes, `./`,
+	// `x/..`, a lone `/`), in every placement mode of both formats. The tree hash does not cover them: only readlink tells
+	{
+		lt := Fileset{{Name: "", Kind: 'd', Perms: 0755, Uid: 3, Gid: 4, Sec: 1e9}, {Name: "sub", Kind: 'd', Perms: 0755, Uid: 3, Gid: 4, Sec: 1e9}, {Name: "sub/x", Kind: 'f', Perms: 0644, Uid: 3, Gid: 4, Sec: 1e9, Content: []byte("x")}}
+		for i, tg := range []string{"sub//x", "/abs//p", "a///b/", "//", ".//.", "sub/../sub/x", "./sub/./x", "sub/", "/", "sub//", " sub/x", "sub\\x"} {
+			lt = append(lt, Entry{Name: fmt.Sprintf("l%02d", i), Kind: 'L', Perms: 0777, Uid: 3, Gid: 4, Sec: 1e9, Link: tg})
+		}
+		for _, fm := range []string{"tar", "zip"} {
+			for _, m := range []string{"direct", "copy", "mount"} {
+				rtExec(c, fmt.Sprintf("rt %s ca %s %s", fm, m, filesetTok(lt)))
+			}
+		}
+	}
 	// file bodies shaped like sparse files: runs of zero bytes at the end, in the middle, block sized and not
 	{
 		rnd := func(n int) []byte {
